@@ -164,11 +164,14 @@ def verify_contract(reg: Registry, con: Contract, timeout_ms: int = 10000, secon
             res.solver_secs += r.secs
             if r.status == "sat" and o.cex is None:
                 o.cex = r.model
-        # vacuity canary: the first completed path must admit a model (assumptions are consistent)
-        if not canary_seen and getattr(p, "entry_bound", None) is not None:
-            canary_seen = True
-            r = check_obligation(p.pc, z3.BoolVal(False), 5000, second=False)
-            res.canary_ok = r.status != "unsat"
+        # vacuity canary: every completed path must admit a model (its assumptions are consistent)
+        if getattr(p, "entry_bound", None) is not None and p.obls:
+            r = check_obligation(p.pc, z3.BoolVal(False), 3000, second=False)
+            if r.status == "unsat":
+                res.canary_ok = False
+                res.notes.append("vacuous path: " + ",".join(f"{l}={d}" for l, d in p.decision_labels[-6:]))
+            elif res.canary_ok is None:
+                res.canary_ok = True
     res.secs = time.time() - t_start
     return res
 
